@@ -8,6 +8,7 @@ deviation flags play no role, `Quirks.spec`/`Quirks.asis` appear where they do.
 -/
 import RsassModel.Dest.Lemmas
 import RsassModel.Dest.Refine
+import RsassModel.Dest.RefineLost
 namespace C20
 open Dest
 variable {σ : Type}
@@ -225,6 +226,29 @@ theorem bubble_preserves_order (q : Quirks) (hh : q.atRuleHoists = false) (hm : 
   refine ⟨?_, hnil⟩
   simpa [view, hnil, viewStack, skel, flatItems] using hv
 
+/-- `bubble_preserves_order_now` — the same for the CODE AS IT IS NOW (after 242f60b the
+at-rule frames keep source order; `Drop` still only prints a failed push): whenever the run
+lost nothing (`lost = 0`, i.e. no at-rule was dropped inside a nested-property block), the
+flattened output equals the evaluation log.  `_partial`: the hypothesis `lost = 0` excludes
+exactly the open finding of C21; media stays nested (open finding `mediaInMediaNested`). -/
+theorem bubble_preserves_order_now (ops : Ops σ) (p : List (Core σ)) (st : St σ)
+    (h : emitTop Quirks.now ops p = .ok st) (hl : st.lost = 0) :
+    flatItems [] st.root = logBody Quirks.now ops {} p [] ∧ st.stack = [] := by
+  obtain ⟨_, hg⟩ := emitBody_good Quirks.now rfl rfl ops {} p {} st h
+  obtain ⟨hv, hk⟩ := hg (by simpa using hl)
+  have hnil : st.stack = [] := by
+    cases hst : st.stack with
+    | nil => rfl
+    | cons f r => rw [hst] at hk; simp [skel] at hk
+  refine ⟨?_, hnil⟩
+  simpa [view, hnil, viewStack, skel, flatItems] using hv
+
+/-- the hypothesis is met by real programs (and the order is the source order) -/
+example : (match emitTop Quirks.now natOps
+      [.rule 2 [.decl 9 9, .media 3 [.decl 4 5, .rule 6 [.decl 7 8], .decl 1 1]]] with
+    | .ok st => (st.lost, (flatItems [] st.root).map (fun e => (e.sel, e.item))) | .error _ => (1, []))
+    = (0, [(some 2, .prop 9 9), (some 2, .prop 4 5), (some 2006, .prop 7 8), (some 2, .prop 1 1)]) := by rfl
+
 /-- the general form, from any state with any open frames (`Dest/Refine.lean`) -/
 theorem emit_refines_log (q : Quirks) (hh : q.atRuleHoists = false) (hm : q.mediaInMediaNested = true)
     (hs : q.closeSwallows = false) (ops : Ops σ) (c : SelCtx σ) (b : List (Core σ)) (st st' : St σ)
@@ -248,7 +272,7 @@ example : (match emitTop { mediaInMediaNested := true } natOps
     | .ok st => (flatItems [] st.root).map (fun e => (e.sel, e.item)) | .error _ => [])
     = [(some 2, .prop 9 9), (some 2, .prop 4 5), (some 2006, .prop 7 8), (some 2, .prop 1 1)] := by rfl
 
-/-- REFUTATION for the as-is flag `atRuleHoists`: the same program under the code's behaviour
+/-- REFUTATION for the flag `atRuleHoists` (code before 242f60b): the same program under that behaviour
 emits `1: 1` BEFORE the nested rule `6` (its declarations are hoisted into one rule copy). -/
 theorem order_asis_refutation : (match emitTop Quirks.asis natOps
       [.rule 2 [.decl 9 9, .media 3 [.decl 4 5, .rule 6 [.decl 7 8], .decl 1 1]]] with
